@@ -1,5 +1,6 @@
 import Proofs.MulAll
 import Proofs.Toy
+import Proofs.StepsTie
 /-!
 # C07 — scalar multiplication and double-scalar multiplication are exact
 
@@ -90,6 +91,19 @@ theorem mul_result_canonical_partial (hp2 : p ≠ 2) (hH : NoOrder2 H) {P : PJ} 
   cases e
   obtain ⟨x, y, ex, ey, rx, ry, hn⟩ := pjXY_correct (show PJRep p a b H J (k • g) from hR)
   exact ⟨x, y, ex, ey, rx.1, rx.2, ry.1, ry.2, hn⟩
+
+/-- TIE: the step functions folded by the model's loops are the loop bodies GENERATED from the current source
+(`Generated/Steps.lean`: bodies of `_naf`, `_mul_precompute`, `__mul__`, `mul_add`, and its four combined points) -/
+theorem loop_bodies_are_generated :
+    (∀ m, nafStep m = Gen.s_naf_step m) ∧
+    (∀ p a st e, mulPrecomputeStep p a st e =
+      Gen.s_mul_precompute_step st.1 st.2.1 st.2.2.1 st.2.2.2 e.1 e.2 p a) ∧
+    (∀ p a X2 Y2 acc i, mulNafStep p a X2 Y2 acc i = Gen.s_mul_step acc.1 acc.2.1 acc.2.2 X2 Y2 i p a) ∧
+    (∀ p a P1 P2 mAmB pAmB mApB pApB acc A B, mulAddStep p a P1 P2 mAmB pAmB mApB pApB acc (A, B) =
+      Gen.s_mul_add_step acc.1 acc.2.1 acc.2.2 A B P1.1 P1.2.1 P1.2.2 P2.1 P2.2.1 P2.2.2
+        mAmB.1 mAmB.2.1 mAmB.2.2 pAmB.1 pAmB.2.1 pAmB.2.2 mApB.1 mApB.2.1 mApB.2.2 pApB.1 pApB.2.1 pApB.2.2
+        p a) :=
+  ⟨StepsTie.nafStep_tie, StepsTie.mulPrecomputeStep_tie, StepsTie.mulNafStep_tie, StepsTie.mulAddStep_tie⟩
 
 /-! ### concrete evaluations on y² = x³ + x + 6 over F₁₁ (G = (2, 7) has order 13) -/
 
